@@ -26,6 +26,10 @@ def apply_edit(root, v):
         return swap_branches_tree(root)
     if v.get('transform') == 'explain_temps':
         return explain_temps_tree(root)
+    if v.get('transform') == 'flip_comparisons':
+        return flip_comparisons_tree(root)
+    if v.get('transform') == 'keywordize_calls':
+        return keywordize_calls_tree(root)
     path = os.path.join(root, 'setigen', v['file'])
     if not os.path.exists(path):
         return 'file missing'
@@ -188,6 +192,69 @@ def explain_temps_tree(root):
         tree = ast.fix_missing_locations(Tr().visit(tree))
         with open(p, 'w') as fh:
             fh.write(ast.unparse(tree) + '\n')
+    return None
+
+
+def flip_comparisons_tree(root):
+    """behaviour-preserving transform: `a < b` -> `b > a`, `a == b` -> `b == a` ... (single-operator comparisons of
+    side-effect-free operands: names, attributes, constants, subscripts and arithmetic on them)"""
+    FLIP = {ast.Lt: ast.Gt, ast.Gt: ast.Lt, ast.LtE: ast.GtE, ast.GtE: ast.LtE, ast.Eq: ast.Eq, ast.NotEq: ast.NotEq}
+
+    def pure(e):
+        return all(isinstance(n, (ast.Name, ast.Attribute, ast.Constant, ast.Subscript, ast.BinOp, ast.UnaryOp, ast.operator,
+                                  ast.unaryop, ast.expr_context, ast.Slice, ast.Tuple)) for n in ast.walk(e))
+
+    class Tr(ast.NodeTransformer):
+        def visit_Compare(self, node):
+            self.generic_visit(node)
+            if len(node.ops) == 1 and type(node.ops[0]) in FLIP and pure(node.left) and pure(node.comparators[0]):
+                return ast.Compare(left=node.comparators[0], ops=[FLIP[type(node.ops[0])]()], comparators=[node.left])
+            return node
+    for p, tree in _each_function(root):
+        tree = ast.fix_missing_locations(Tr().visit(tree))
+        with open(p, 'w') as fh:
+            fh.write(ast.unparse(tree) + '\n')
+    return None
+
+
+def keywordize_calls_tree(root):
+    """behaviour-preserving transform: positional arguments of calls that resolve to package functions are passed by
+    keyword (formal names from the resolved callee; calls with *args/**kwargs, and callees with *args, are left alone)"""
+    sys.path.insert(0, HERE)
+    from vstatic.model import Program
+    from vstatic.argbind import resolve_callee
+    prog = Program(root)
+    edits = {}
+    for fi in prog.functions.values():
+        if isinstance(fi.node, ast.Lambda):
+            continue
+        for n in ast.walk(fi.node):
+            if not isinstance(n, ast.Call) or not n.args or any(isinstance(a, ast.Starred) for a in n.args) \
+                    or any(k.arg is None for k in n.keywords):
+                continue
+            if prog.enclosing_function(fi.module, n) is not fi:
+                continue
+            rc = resolve_callee(prog, fi, n)
+            if rc is None:
+                continue
+            callee, skip = rc
+            a = callee.node.args
+            if a.vararg or a.posonlyargs:
+                continue
+            formals = [x.arg for x in a.args][1 if skip else 0:]
+            if len(n.args) > len(formals) or any(k.arg in formals[:len(n.args)] for k in n.keywords):
+                continue
+            edits.setdefault(fi.module.path, []).append((n.lineno, n.col_offset, formals[:len(n.args)]))
+    for path, lst in edits.items():
+        tree = ast.parse(open(path).read())
+        want = {(l, c): names for l, c, names in lst}
+        for n in ast.walk(tree):
+            if isinstance(n, ast.Call) and (n.lineno, n.col_offset) in want and len(n.args) == len(want[(n.lineno, n.col_offset)]):
+                names = want[(n.lineno, n.col_offset)]
+                n.keywords = [ast.keyword(arg=nm, value=v) for nm, v in zip(names, n.args)] + n.keywords
+                n.args = []
+        with open(path, 'w') as fh:
+            fh.write(ast.unparse(ast.fix_missing_locations(tree)) + '\n')
     return None
 
 
